@@ -17,7 +17,7 @@ func init() {
 
 func isWriterCall(call ssa.CallInstruction) bool {
 	n := callName(call)
-	return strings.HasPrefix(n, "(*bufio.Writer).Write") || n == "internal/api.writeJSONString" || n == "internal/api.writeJSONStringArray"
+	return strings.HasPrefix(n, "(*bufio.Writer).Write") || n == "internal/api.writeJSONString" || n == "internal/api.writeJSONStringArray" || n == "internal/api.writeJSONBlob"
 }
 
 func isEncCall(call ssa.CallInstruction) bool {
@@ -37,6 +37,80 @@ func runC19(c *Ctx) {
 	c.Rule("C19.LEN", "FLOW: the array length announced for each column is the row count returned by the drainArrowBatches call that returned the batches being encoded")
 	c.Rule("C19.TRUNC", "FLOW: the row limit keeps a prefix of the last batch: NewSlice(0, cap - rows so far)")
 	c.Rule("C19.UNIT", "FLOW: every Timestamp.ToTime(unit) uses the unit of that column's own TimestampType")
+
+	// ---- BYTES
+	c.Rule("C19.BYTES", "FLOW: no cell writer hands writeJSONString a string converted from a byte slice — binary data is not text, and raw bytes >= 0x80 make the JSON body undecodable; and the binary writer emits, for every byte outside printable ASCII (and for backslash and quotes), an escape built from that byte")
+	for _, name := range []string{"internal/api.writeArrowValue", "internal/api.writeJSONValue"} {
+		fn := p.Func(name)
+		if fn == nil {
+			continue
+		}
+		n := 0
+		for _, call := range findCalls(fn, false, "internal/api.writeJSONString") {
+			arg := call.Common().Args[2]
+			raw := derives(arg, func(v ssa.Value) bool {
+				cv, ok := v.(*ssa.Convert)
+				return ok && cv.X.Type().String() == "[]byte" && cv.Type().String() == "string"
+			}, false, 4)
+			n++
+			if raw {
+				c.Bad("C19.BYTES", fmt.Sprintf("%s|writeJSONString#%d-raw-bytes", fn.Name(), n), call.Pos(), "%s writes a []byte value as string(bytes) into a JSON string: a BLOB with a byte >= 0x80 that is not valid UTF-8 makes the response undecodable, and lenient decoders map different blobs to the same text", fn.Name())
+			} else {
+				c.Triv("C19.BYTES", fmt.Sprintf("%s|writeJSONString#%d-text", fn.Name(), n), call.Pos(), "argument is text")
+			}
+		}
+		c.Check(n > 0, "C19.BYTES", fn.Name()+"|string-writes-found", fn.Pos(), fmt.Sprintf("%d string writes inspected", n), "no writeJSONString call found")
+	}
+	if fn := c.MustFunc("C19.BYTES", "internal/api.writeJSONBlob"); fn != nil {
+		// the pass-through write of a byte happens only under 0x20 <= c < 0x7f and c != backslash/quotes
+		var rng *ssa.Next
+		_ = rng
+		nPass := 0
+		okPass := true
+		for _, call := range findCalls(fn, false, "(*bufio.Writer).WriteByte") {
+			arg := call.Common().Args[1]
+			if _, isConst := arg.(*ssa.Const); isConst {
+				continue
+			}
+			if derives(arg, func(v ssa.Value) bool { _, ok := v.(*ssa.BinOp); return ok }, false, 3) {
+				// a hex digit computed from the byte
+				continue
+			}
+			if _, isLookup := arg.(*ssa.Lookup); isLookup {
+				continue
+			}
+			if _, isIdx := arg.(*ssa.Index); isIdx {
+				continue
+			}
+			nPass++
+			need := map[string]bool{">=32": false, "<127": false, "!=92": false, "!=34": false}
+			for _, f := range factsAt(call.(ssa.Instruction)) {
+				if f.Kind != factCmp || f.X != arg {
+					continue
+				}
+				k, ok := constInt(f.Y)
+				if !ok {
+					continue
+				}
+				switch {
+				case (f.Op == token.GEQ && k == 0x20) || (f.Op == token.GTR && k == 0x1f):
+					need[">=32"] = true
+				case (f.Op == token.LSS && k == 0x7f) || (f.Op == token.LEQ && k == 0x7e) || (f.Op == token.LSS && k == 0x80):
+					need["<127"] = true
+				case f.Op == token.NEQ && k == '\\':
+					need["!=92"] = true
+				case f.Op == token.NEQ && k == '"':
+					need["!=34"] = true
+				}
+			}
+			for _, v := range need {
+				if !v {
+					okPass = false
+				}
+			}
+		}
+		c.Check(nPass == 1 && okPass, "C19.BYTES", "writeJSONBlob|pass-through-only-printable-ascii", fn.Pos(), "a byte is copied verbatim only if printable ASCII and not a backslash or double quote", "writeJSONBlob copies bytes verbatim that are not printable ASCII, or a backslash / double quote: the JSON string is malformed or the text form ambiguous")
+	}
 
 	// ---- EMITJ / NONFINITE
 	if fn := c.MustFunc("C19.EMITJ", "internal/api.writeArrowValue"); fn != nil {
